@@ -1336,6 +1336,9 @@ class C14(DirectSpec):
         fl = [(f"engine.{e}", 1, "engine present") for e in gen.ROOT_ENGINES + gen.CMA_ENGINES + gen.LEAF_ONLY]
         fl += [("same_config_objects_run_twice", 10, "the same configuration objects run twice in one process"),
                ("two_seed_consuming_demes_sprouted_onto_one_level_in_one_metaepoch", 2, "two CMA-ES / LHS / Sobol demes sprouted onto one level in one metaepoch"),
+               ("cma_deme_handed_the_largest_seed_numpy_accepts", 2, "CMA-ES deme sprouted in metaepoch 1 of a run seeded with 2**32 - 2 (its seed is 2**32 - 1)"),
+               ("runs_preceded_by_a_short_run_of_a_sibling_configuration", 10, "seeded runs repeated after a short run of a sibling configuration in the same process"),
+               ("history_twins_with_a_warm_started_cma_deme", 3, "such history twins in which a warm-started CMA-ES deme was sprouted"),
                ("descriptors_with_3_levels", 1, "descriptor with 3 levels"), ("cross_process_twins", 10, "fresh-interpreter twins"), ("descriptors_with_2_demes", 10, "descriptors that produced >=2 demes")]
         return fl
 
